@@ -40,6 +40,11 @@ def units(tier):
         Li = L if inner == 'to_list' else (L - 1 if tier != 'quick' else L - 2)
         for sh in range(n):
             out.append({'fam': 'top', 'inner': inner, 'L': Li, 'shard': [sh, n]})
+    for sh in range(4):
+        out.append({'fam': 'top', 'inner': 'to_list', 'L': 5 if tier == 'quick' else 6, 'shard': [sh, 4], 'alpha': [6, 7, 8, 9, 3]})
+    ng = 10 if tier == 'quick' else 13
+    for sh in range(8):
+        out.append({'fam': 'many', 'groups': ng, 'shard': [sh, 8]})
     Ln = 5 if tier == 'quick' else 7
     for fam in ('ingroup', 'inroll21', 'inroll22', 'insplit', 'groupgroup_stream'):
         for sh in range(4):
@@ -55,9 +60,14 @@ def cases(unit):
     sh, n = unit['shard']
     fam = unit['fam']
     if fam == 'top':
-        for i, seq in enumerate(spaces.sequences([0, 1, 2, 3, 4], unit['L'])):
+        for i, seq in enumerate(spaces.sequences(unit.get('alpha', [0, 1, 2, 3, 4]), unit['L'])):
             if i % n == sh:
                 yield {'fam': 'top', 'inner': unit['inner'], 'seq': seq}
+    elif fam == 'many':
+        # many groups: the j-th new inner group belongs to parent bit j of the mask (all 2^n assignments)
+        for mask in range(2 ** unit['groups']):
+            if mask % n == sh:
+                yield {'fam': 'many', 'groups': unit['groups'], 'mask': mask}
     elif fam == 'raw':
         for i, seq in enumerate(spaces.wf_sequences([0, 1], [0, 1], unit['depth'])):
             if i % n == sh:
@@ -89,6 +99,8 @@ def run_case(case, acc):
     fam = case['fam']
     if fam == 'raw':
         return run_raw(case, acc)
+    if fam == 'many':
+        return run_many(case, acc)
     items = [10 * i + c for i, c in enumerate(case['seq'])]
     keyf = opspecs.F('k_mixed')
     if fam == 'top':
@@ -144,6 +156,8 @@ def run_case(case, acc):
                 out.append(viol(fam, 'two-live-groups-share-an-index', {'opened': opened}))
         if len(parts) >= 2 and any(len(p) >= 2 for p in parts):
             acc.nontrivial.add(fast_hash(repr(case)))
+        if 6 in case['seq'] and 7 in case['seq']:
+            acc.count('distinct_keys_with_equal_hash')
         if any(c in (3, 4) for c in case['seq']) and 3 in case['seq'] and 4 in case['seq']:
             acc.count('int_float_equal_keys')
         if case['seq'].count(0) >= 2 or case['seq'].count(1) >= 2 or case['seq'].count(2) >= 2:
@@ -152,6 +166,31 @@ def run_case(case, acc):
         acc.nontrivial.add(fast_hash(repr(case)))
     acc.states.update(ctx.states)
     acc.outcomes.add(fast_hash(repr(sink.items)))
+    return out
+
+
+def run_many(case, acc):
+    """group_by > group_by > to_list with 10+ inner groups spread over two parents in every possible way: group indices of
+    one parent are then arbitrary subsets of 0..n-1, and completion must still follow first appearance."""
+    n, mask = case['groups'], case['mask']
+    items = [100 * ((mask >> j) & 1) + j for j in range(n)] + [100 * (mask & 1) + 0]
+    spec = [['group_by', 'div100', [['group_by', 'mod100', [['to_list']]]]]]
+    sink, ctx, store = harness.run_api(spec, items)
+    acc.evals += 1
+    acc.events += len(items) + 1
+    acc.traces += 1
+    exp = harness.model_all(spec, items)
+    out = []
+    sp = harness.status_problem(sink)
+    if sp:
+        out.append(viol('many', sp, {'items': items, 'error': repr(sink.error)}))
+    kind = harness.diff_kind(exp, sink.items)
+    if kind:
+        out.append(viol('many', 'groups-completed-out-of-first-appearance-order' if kind == 'order' else 'to_list-output-' + kind,
+                        {'spec': spec, 'items': items, 'expected': exp, 'observed': sink.items}))
+    acc.outcomes.add(fast_hash(repr(sink.items)))
+    acc.nontrivial.add(fast_hash(repr(case)))
+    acc.count('many_groups')
     return out
 
 
@@ -216,7 +255,7 @@ def run_raw(case, acc):
 
 def guards(acc, tier):
     msgs = []
-    for name in ('int_float_equal_keys', 'equal_nonidentical_keys', 'two_parent_keys'):
+    for name in ('int_float_equal_keys', 'equal_nonidentical_keys', 'two_parent_keys', 'distinct_keys_with_equal_hash', 'many_groups'):
         if acc.counters.get(name, 0) < 1:
             msgs.append('no execution with %s' % name)
     if len(acc.outcomes) < 100:
